@@ -574,7 +574,7 @@ def r06_17(run, model):
                            "filtered out and 2 runs the `_` arm")
     if k == 0:
         run.ob("R06.17", "go::compile|nothing it built is filtered away", True, site(GOC, None), f"{n} resolved calls on goast-typed collections / iterators, {k} of them filtering")
-    run.floor("resolved calls on goast-typed values in go/compile.rs", n, 60)
+    run.floor("resolved calls on goast-typed values in go/compile.rs", n, 172)
 
 
 def run(run, model):
